@@ -42,10 +42,13 @@ Proof. exact (fun N st i o => conj (fun H => H) (fun H => H)). Qed.
 
 (** non-vacuity: the F2 witness goes through the sweep and returns 20 events *)
 From GB Require Import NumQ Cert.
-Example C13_example :
-  exists st sorted n, subdivide release 1000 (fill_queue F2_A F2_B Union) Union = Ok (st, sorted, n)
-                      /\ length sorted = 20%nat.
-Proof. vm_compute. do 3 eexists. split; reflexivity. Qed.
+Definition C13_example_check : bool :=
+  match subdivide release 1000 (fill_queue F2_A F2_B Union) Union with
+  | Ok (_, sorted, _) => Nat.eqb (length sorted) 20
+  | _ => false
+  end.
+Example C13_example : C13_example_check = true.
+Proof. vm_compute. reflexivity. Qed.
 
 (** the endpoints of every sub-segment returned by subdivide are input vertices or computed
     intersection points (every instance, every input) *)
@@ -57,3 +60,53 @@ Theorem C13_subsegment_endpoints_allowed :
   subdivide cfg fuel (fill_queue A B op) op = Ok (st, sorted, n) ->
   forall i, In i sorted -> allowed N inp (point_of st i).
 Proof. exact subdivide_points_allowed. Qed.
+
+(** queue filling creates exactly one event pair per non-degenerate input edge: [starts_of]
+    lists one start point per non-collapsed edge (every instance, every input) *)
+From GB Require Import QueueCount.
+Theorem C13_one_pair_per_nondegenerate_edge :
+  forall (N : Num) (subject clipping : list (FillQueue.polygon N)) (op : operation),
+  length (f_q (fill_queue subject clipping op))
+  = (2 * (length (starts_of subject) + length (starts_of clipping)))%nat.
+Proof. exact fill_queue_event_count. Qed.
+
+(** coverage clause, one step: [divide_segment] (every instance) re-links exactly the divided
+    pair — the left event gets a new right partner, the old right partner a new left partner,
+    both new events at the (possibly bumped) division point, nothing else changes; and at the
+    exact instance, dividing a sub-segment at one of its points yields two linked pairs whose
+    segments cover exactly the old one and meet only in the division point. *)
+From Coq Require Import QArith.
+From GB Require Import NumQ Divide LinkProofs IntersectProofs SplitCover.
+Theorem C13_division_relinks_one_pair :
+  forall (N : Num) (cfg : config) (s s' : sq N) (se_l se_r : eid) (i : pt N),
+  wf N (sq_st s) -> mapped N (sq_st s) se_l -> mapped N (sq_st s) se_r -> se_r <> se_l ->
+  e_other (getE (sq_st s) se_l) = Some se_r ->
+  divide_segment cfg s se_l i = Ok s' ->
+  exists r l i',
+    ~ mapped N (sq_st s) r /\ ~ mapped N (sq_st s) l /\ r <> l /\
+    e_other (getE (sq_st s') se_l) = Some r /\ e_other (getE (sq_st s') r) = Some se_l /\
+    e_other (getE (sq_st s') l) = Some se_r /\ e_other (getE (sq_st s') se_r) = Some l /\
+    e_point (getE (sq_st s') r) = i' /\ e_point (getE (sq_st s') l) = i' /\
+    i' = (if eqX N (px i) (px (e_point (getE (sq_st s) se_l))) && ltY N (py i) (py (e_point (getE (sq_st s) se_l)))
+          then mkPt N (next_upX N (px i)) (py i) else i) /\
+    (forall k, mapped N (sq_st s) k -> e_point (getE (sq_st s') k) = e_point (getE (sq_st s) k)) /\
+    (forall k, mapped N (sq_st s) k -> k <> se_l -> k <> se_r ->
+               e_other (getE (sq_st s') k) = e_other (getE (sq_st s) k)).
+Proof. exact divide_segment_shape. Qed.
+
+Theorem C13_division_covers_exactly :
+  forall cfg (s s' : sq NQ) (se_l se_r : eid) (lx ly rx ry ix iy : Q),
+  wf NQ (sq_st s) -> mapped NQ (sq_st s) se_l -> mapped NQ (sq_st s) se_r -> se_r <> se_l ->
+  e_other (getE (sq_st s) se_l) = Some se_r ->
+  e_point (getE (sq_st s) se_l) = fpt lx ly -> e_point (getE (sq_st s) se_r) = fpt rx ry ->
+  on_seg lx ly rx ry ix iy ->
+  divide_segment cfg s se_l (fpt ix iy) = Ok s' ->
+  exists r l,
+    ~ mapped NQ (sq_st s) r /\ ~ mapped NQ (sq_st s) l /\
+    e_other (getE (sq_st s') se_l) = Some r /\ e_other (getE (sq_st s') l) = Some se_r /\
+    e_point (getE (sq_st s') se_l) = fpt lx ly /\ e_point (getE (sq_st s') r) = fpt ix iy /\
+    e_point (getE (sq_st s') l) = fpt ix iy /\ e_point (getE (sq_st s') se_r) = fpt rx ry /\
+    (forall x y, on_seg lx ly rx ry x y <-> on_seg lx ly ix iy x y \/ on_seg ix iy rx ry x y) /\
+    (~ (rx == lx /\ ry == ly)%Q ->
+     forall x y, on_seg lx ly ix iy x y -> on_seg ix iy rx ry x y -> (x == ix /\ y == iy)%Q).
+Proof. exact divide_segment_cover. Qed.
